@@ -38,6 +38,21 @@ func (p *Program) emitSMT(ob *Obligation, forCVC5 bool) string {
 	for _, t := range terms {
 		d.Collect(t, nil)
 	}
+	// definitional axioms of the spec functions that occur (closure)
+	var defs []*T
+	usedDef := map[string]bool{}
+	for changed := true; changed; {
+		changed = false
+		for name, ax := range p.defAxioms {
+			if !usedDef[name] && d.Has(name) {
+				usedDef[name] = true
+				defs = append(defs, ax)
+				d.Collect(ax, nil)
+				changed = true
+			}
+		}
+	}
+	sort.Slice(defs, func(i, j int) bool { return defs[i].String() < defs[j].String() })
 	bg := p.background(d)
 	for _, t := range bg {
 		d.Collect(t, nil)
@@ -51,6 +66,11 @@ func (p *Program) emitSMT(ob *Obligation, forCVC5 bool) string {
 		bg = bg2
 	}
 	d.Emit(&sb)
+	for _, t := range defs {
+		sb.WriteString("(assert ")
+		sb.WriteString(t.String())
+		sb.WriteString(")\n")
+	}
 	for _, t := range bg {
 		sb.WriteString("(assert ")
 		sb.WriteString(t.String())
